@@ -121,7 +121,19 @@ BridgeTruth ==
    /\ \A a \in Grid : ~ Exceeds(a, a)
    /\ \A a, b, c \in Grid : (InCone(W, Sub(b, a)) /\ InCone(W, Sub(c, b))) => InCone(W, Sub(c, a))
    /\ (Fam = "vogp" => SD = SC)
-Bridge == Kind = "box" /\ Fam \in {"paveba", "vogp"} /\ BridgeBox /\ BridgeTruth
+\* Auer: pairwise versions of AuerRel on two displayable rectangles (both of the common width when Iso), conditions A1, A3, A4 of
+\* VOAccuracyAbs with  wd = componentwise >=  and  ex = "exceeds by more than eps in every objective" (EpsA is 2 eps: doubled units)
+GtB(b1, b2) == SmallM(C2(b1), C2(b2)) > HiW(B2(b1), B2(b2))
+McB(b1, b2) == BigM(C2(b1), C2(b2)) < LoW(B2(b1), B2(b2))
+NdB(b1, b2) == BigM(C2(b1), C2(b2)) <= LoW(B2(b1), B2(b2))
+ExA(z, z2)  == \A n \in 1..2 : 2 * (z2[n] - z[n]) > EpsA
+BridgeAuer ==
+   \A p \in { q \in AllBoxes \X AllBoxes : Iso => (B2(q[1]) = B2(q[2]) /\ B2(q[1])[1] = B2(q[1])[2]) } :
+      /\ GtB(p[1], p[2]) => /\ \A z \in PtsOf(p[1]) : \A z2 \in PtsOf(p[2]) : LeqV(z, z2)                                  \* A1
+                            /\ RankBox(p[2]) > RankBox(p[1])                                                                 \* rank
+      /\ \A z \in PtsOf(p[1]) : \A z2 \in PtsOf(p[2]) : ExA(z, z2) => (GtB(p[1], p[2]) \/ (McB(p[1], p[2]) /\ NdB(p[1], p[2])))   \* A3, A4 (or discarded)
+Bridge == IF Fam = "auer" THEN Kind = "box" /\ BridgeAuer
+          ELSE Kind = "box" /\ Fam \in {"paveba", "vogp"} /\ BridgeBox /\ BridgeTruth
 
 Sane           == S \cap P = {} /\ U \subseteq P /\ (done => S = {})
 \* the future depends on the displayed regions only through the STALE regions of inactive members of P (PaVeBa family:
